@@ -147,6 +147,9 @@ func unreadableClass(src map[string]any, migrated []byte, srcVersion string) str
 	}
 	// confirm on the result that the suspected member is what is still wrong
 	if mt, err := decodeGeneric(migrated); err == nil {
+		if l, ok := mt.(map[string]any)["language"].(string); ok && len(l) == 3 && utf8.RuneCountInString(l) != 3 && str(src["language"]) == l {
+			return "13.2-language-three-bytes-kept"
+		}
 		still := hazardsOf(mt.(map[string]any))
 		for _, t := range notTruncated {
 			for _, h := range still {
